@@ -74,6 +74,9 @@ ACCEPTED_DERIVED = {
 }
 
 
+CLASS_WIDE = {"blockSizePos"}  # accepted wherever in the owning class it is written: pure stream-position bookkeeping
+
+
 def strip_targs(name):
     out, depth = "", 0
     for ch in name:
@@ -93,6 +96,11 @@ def accepted_reason(fnname, path, op):
     for key in ((f, leaf, op), (f, "*", op), (f, leaf, "*")):
         if key in ACCEPTED:
             return ACCEPTED[key]
+    # bookkeeping members are accepted for the whole class that owns them (the statement may live in a private helper of Put)
+    cls_ = f.rsplit("::", 1)[0]
+    for (af, al, ao), why in ACCEPTED.items():
+        if al in CLASS_WIDE and al == leaf and ao == op and af.rsplit("::", 1)[0] == cls_:
+            return why
     d = ACCEPTED_DERIVED.get(f)
     if d is not None:
         comps = [c for c in path if isinstance(c, str) and not c.startswith("[")]
